@@ -290,6 +290,15 @@ pub fn size_boundary_docs() -> Vec<Vec<Node>> {
         l.size = SizeEnc::Width(1);
         out.push(vec![Node::master(ID_ROOT, vec![Node::master(ID_M, vec![Node::master(ID_N, vec![Node::master(ID_K, vec![l])])])])]);
     }
+    // a master whose content is exactly 2^7-1 / 2^14-1 bytes FOLLOWED by an element that never ends an unknown-size
+    // master (a global element, an unknown id): if its size came out as the reserved all-ones value, this is where
+    // it shows (a following sibling or parent would still close it at the right place)
+    for len in [125usize, 16380] {
+        let void = Node::leaf(ID_VOID, Val::B(vec![0x76]));
+        out.push(vec![Node::master(ID_ROOT, vec![Node::leaf(ID_B, Val::B(vec![0x5b; len]))]), void.clone()]);
+        out.push(vec![Node::master(ID_ROOT, vec![Node::leaf(ID_B, Val::B(vec![0x5b; len]))]), Node { id: 0xf2, kind: Kind::RawLeaf(vec![0x11; 3]), size: SizeEnc::Min }]);
+        out.push(vec![Node::master(ID_ROOT, vec![Node::master(ID_M, vec![Node::master(ID_N, vec![Node::master(ID_K, vec![Node::master(ID_L, vec![Node::leaf(ID_LB, Val::B(vec![0xa6; len]))]), void.clone()]), void.clone()]), void.clone()]), void.clone(), Node::leaf(ID_U, Val::U(9))])]);
+    }
     // unknown-id raw tag with boundary payload (reader must allow unknown ids)
     out.push(vec![Node::master(ID_ROOT, vec![Node { id: 0xf2, kind: Kind::RawLeaf(vec![0x11; 127]), size: SizeEnc::Min }])]);
     out.push(vec![Node::master(ID_ROOT, vec![Node { id: 0x4f00, kind: Kind::RawLeaf(vec![]), size: SizeEnc::Min }, Node { id: 0x0100000000000003, kind: Kind::RawLeaf(vec![1, 2, 3]), size: SizeEnc::Min }])]);
